@@ -397,7 +397,8 @@ def run(ctx: Ctx) -> None:
         wallets.append(gw.make_wallet(ch, shapes[ch.draw(len(shapes), "shape")], cosigners, 20))
     ctx.log("start", f"bindings={serving}", f"faulty={faulty}", [w.shape for w in wallets], f"cosigners={''.join('g' if c.grind else 'p' for c in cosigners)}")
     with ctx.must_succeed(P18, "funded-psbt-builds", "build_psbt"):
-        cer = gw.fund_and_build(ch, wallets, cosigners)
+        # the Python arm signs ~15x slower: two inputs there keep the slowest runs near a second
+        cer = gw.fund_and_build(ch, wallets, cosigners, max_inputs=4 if serving else 2)
     if ctx.wants(P12):
         # every taproot script the ceremony is about to spend, before it tries
         seen: list[tuple[int, int]] = []
